@@ -47,3 +47,34 @@ def kwsum(**kw: Any) -> Any:
 
 def kwkeys(**kw: Any) -> Any:
     return list(kw.keys())
+
+
+class AnyEq:
+    """Compares equal to everything (like ``unittest.mock.ANY``)."""
+
+    def __eq__(self, other: Any) -> bool:
+        return True
+
+    def __ne__(self, other: Any) -> bool:
+        return False
+
+    def __hash__(self) -> int:
+        return 1
+
+
+class _NoTruth:
+    def __bool__(self) -> bool:
+        raise ValueError("the truth value of an element-wise comparison is ambiguous")
+
+
+class NoTruthEq:
+    """Element-wise equality like a numpy array or a pandas Series: the result of ``==`` has no truth value."""
+
+    def __eq__(self, other: Any) -> Any:
+        return _NoTruth()
+
+    def __ne__(self, other: Any) -> Any:
+        return _NoTruth()
+
+    def __hash__(self) -> int:
+        return 2
